@@ -164,6 +164,35 @@ def carry(d, name):
 
 
 ROUTES = ('ctor', 'call', 'set_val', 'setitem')
+# the same store into a destination that has a history (see age_destination)
+HROUTES = ('set_val@copy64', 'call@copy_resized', 'setitem@view_resized', 'set_val@resized_back', 'call@used', 'setitem@used')
+
+
+def age_destination(x, fmt, hist):
+    """things done to / around a live object before a value is stored into it; none of them may change how it stores"""
+    arr = isinstance(x.val, np.ndarray) and x.val.ndim >= 1
+    if hist == 'copy64':                     # a shallow copy of it is widened to 64 bits
+        y = x.copy()
+        y.resize(n_word=64)
+    elif hist == 'copy_resized':
+        y = x.copy()
+        y.resize(n_word=fmt[1] + 9, n_frac=fmt[2] + 3)
+    elif hist == 'view_resized':             # a view of it is widened and written
+        if arr:
+            y = x[0:1]
+            y.resize(n_word=fmt[1] + 9)
+            y.set_val(0, raw=True, index=(0,) * y.val.ndim)
+        else:
+            y = x.deepcopy()
+            y.resize(n_word=fmt[1] + 9)
+    elif hist == 'resized_back':             # it was itself wider (64 bits) for a while
+        x.resize(n_word=64)
+        x.resize(n_word=fmt[1])
+    elif hist == 'used':
+        warm(x)
+    else:
+        raise ValueError(hist)
+
 
 
 def store(route, value, fmt, rounding, overflow, callbacks=None):
@@ -177,8 +206,13 @@ def store(route, value, fmt, rounding, overflow, callbacks=None):
     shape = np.shape(value) if not isinstance(value, str) else ()
     if isinstance(value, (list, tuple)):
         shape = np.shape(np.array(value))
+    hist = None
+    if '@' in route:
+        route, hist = route.split('@')
     if route in ('call', 'set_val'):
         x = mk(np.zeros(shape, dtype=int) if shape else 0, fmt, rounding, overflow, **kw)
+        if hist:
+            age_destination(x, fmt, hist)
         if callbacks is not None:
             for c in callbacks:
                 del c.log[:]
@@ -189,6 +223,8 @@ def store(route, value, fmt, rounding, overflow, callbacks=None):
         return x, None
     if route == 'setitem':
         x = mk(np.zeros((2,) + tuple(shape), dtype=int), fmt, rounding, overflow, **kw)
+        if hist:
+            age_destination(x, fmt, hist)
         if callbacks is not None:
             for c in callbacks:
                 del c.log[:]
